@@ -1238,6 +1238,8 @@ def model_value(model, v, heap, memo=None):
         return {'__pref__': [heap[v.mref.oid].name if v.mref.oid in heap else '?', r.as_long() if z3.is_int_value(r) else None]}
     if isinstance(v, Ref) and v.oid in heap and isinstance(heap[v.oid], Pool):
         return {'__pool__': heap[v.oid].name}
+    if isinstance(v, (KeyList, DictIter, M.EventView)):
+        return {'__opaque__': type(v).__name__}
     return _orig_model_value(model, v, heap, memo)
 
 
